@@ -273,16 +273,21 @@ class TBackend(TSpec):
 def fresh_array(name, ndim, kind="real", shape=None, path=None, min_size=0):
     """a fresh array value for modular-call results: symbolic shape (unless given) and uninterpreted elements"""
     n = V.fresh_name(name)
+    la = V.loop_args()
     if shape is None:
-        shape = tuple(Sym(z3.Int(f"{n}_shape_{i}")) for i in range(ndim))
+        if la:
+            shape = tuple(Sym(z3.Function(f"{n}_shape_{i}", *([z3.IntSort()] * len(la)), z3.IntSort())(*la))
+                          for i in range(ndim))
+        else:
+            shape = tuple(Sym(z3.Int(f"{n}_shape_{i}")) for i in range(ndim))
         if path is not None:
             for s_ in shape:
                 path.assume(s_ >= min_size)
     rng = {"real": z3.RealSort(), "int": z3.IntSort(), "bool": z3.BoolSort()}[kind]
-    f = z3.Function(f"{n}_elem", *([z3.IntSort()] * len(shape)), rng)
+    f = z3.Function(f"{n}_elem", *([z3.IntSort()] * (len(la) + len(shape))), rng)
     if len(shape) == 0:
-        return Sym(f())
-    return SArr(tuple(shape), lambda idx: Sym(f(*[V.lift(i) for i in idx])), kind)
+        return Sym(f(*la))
+    return SArr(tuple(shape), lambda idx: Sym(f(*(la + [V.lift(i) for i in idx]))), kind)
 
 
 class TObj(TSpec):
@@ -385,7 +390,7 @@ class Contract:
 
         def called(key, n=0):
             """ghost: result of the n-th modular call to `key` on this path"""
-            hits = [r for (k, b, r) in interp.call_log if key in k]
+            hits = [e[2] for e in interp.call_log if key in e[0]]
             if len(hits) <= n:
                 return _NoCall()        # compares unequal / non-identical to everything
             return hits[n]
@@ -400,11 +405,30 @@ class Contract:
         vars["old"] = old
 
         def called_args(key, n=0):
-            hits = [b for (k, b, r) in interp.call_log if key in k]
+            hits = [e[1] for e in interp.call_log if key in e[0]]
             if len(hits) <= n:
                 return _NoCallArgs()
             return hits[n]
         vars["called_args"] = called_args
+
+        def called_at(key, j, n=0):
+            """ghost: result of the modular call to `key` made in iteration j of the (innermost) summarised loop"""
+            from . import loops as _loops
+            hits = [e for e in interp.call_log if key in e[0] and len(e) > 3 and e[3]]
+            if len(hits) <= n:
+                return _NoCall()
+            e = hits[n]
+            return _loops.subst_value(e[2], e[3][-1], j)
+
+        def called_args_at(key, j, n=0):
+            from . import loops as _loops
+            hits = [e for e in interp.call_log if key in e[0] and len(e) > 3 and e[3]]
+            if len(hits) <= n:
+                return _NoCallArgs()
+            e = hits[n]
+            return _loops.subst_value(e[1], e[3][-1], j)
+        vars["called_at"] = called_at
+        vars["called_args_at"] = called_args_at
         from . import stubs as _S
 
         def fft_arg(res, op=None):
@@ -468,7 +492,12 @@ class Contract:
             path.oblige(f"{tag}.requires[{i}]", self.eval_clause(interp, r, bound), {"clause": r})
         for exc_name, cond in self.raises.items():
             c = self.eval_clause(interp, cond, bound)
-            if path.branch(c) if is_sym(c) else bool(c):
+            interp.in_raise_branch += 1
+            try:
+                taken = path.branch(c) if is_sym(c) else bool(c)
+            finally:
+                interp.in_raise_branch -= 1
+            if taken:
                 cls = self._exc_class(interp, f, exc_name)
                 raise X.PyRaise(X.Obj(cls, {"args": (f"<{exc_name} from {self.key}>",), "_modular": True}), interp.lineno)
         if self.result is None:
@@ -494,7 +523,7 @@ class Contract:
                 path.conds.append(z3.ForAll(consts, bt) if consts else bt)
                 continue
             path.assume(self.eval_clause(interp, self.ensures[n], bound, {"result": res}))
-        interp.call_log.append((self.key, bound, res))
+        interp.call_log.append((self.key, bound, res, [fr.L for fr in interp.loop_stack]))
         return res
 
     def _exc_class(self, interp, f, name):
